@@ -160,7 +160,7 @@ DEPS = [[], [0], [1], [0, 1]]          # A -> B -> C ;  D <- (A, B)
 OUT = ["a", "b", "c", "d"]
 
 
-LABELS = {"topo": NAMES, "rev": ["R", "M", "C", "D"]}      # "rev": the middle target sorts before the root it depends on
+LABELS = {"topo": NAMES, "rev": ["R", "M", "Z", "D"]}      # "rev": the middle target sorts before the root it depends on
 
 
 def build_world(be, names=NAMES):
